@@ -34,7 +34,7 @@ theorem liveGetTask_sem {j0 : JobObj} {sp : Sys} (ctx : PassCtx j0 sp) {n : Stri
     (h : liveGetTask0 sp n = some t) :
     TaskSem t ∧ t.name = n ∧ (t.ref.finishTimestamp.isSome = true → PodFinIn sp.pods n) ∧
     (PodFinIn sp.pods n → t.ref.finishTimestamp.isSome = true) := by
-  obtain ⟨p, hp, hpt⟩ : ∃ p, findPod sp.pods n = some p ∧ podTask p = some t := by
+  obtain ⟨p, hp, hpt⟩ : ∃ p, findPod sp.pods n = some p ∧ podTask sp.clock p = some t := by
     unfold liveGetTask0 at h
     cases hp : findPod sp.pods n with
     | none => simp [hp] at h
@@ -71,7 +71,7 @@ theorem getTaskForRef_sem {j0 : JobObj} {sp : Sys} (ctx : PassCtx j0 sp) {ref : 
     simp only [hc] at h
     have hcm := findPod_some hc
     have hcc := (ctx.pods.cache c hcm.1 (ctx.owned.cache c hcm.1)).2
-    cases hpt : podTask c with
+    cases hpt : podTask sp.clock c with
     | none => simp [hpt] at h
     | some t0 =>
       simp only [hpt] at h
@@ -104,7 +104,7 @@ theorem getTaskForRef_none_lost {j0 : JobObj} {sp : Sys} (ctx : PassCtx j0 sp) {
   | some c =>
     simp only [hc] at h
     have hcm := findPod_some hc
-    cases hpt : podTask c with
+    cases hpt : podTask sp.clock c with
     | none =>
       have := ctx.lin c hcm.1 (podTask_none_finished hpt)
       rw [hcm.2] at this; exact this
@@ -225,7 +225,7 @@ theorem newTask_sem {j0 : JobObj} {sp : Sys} (ctx : PassCtx j0 sp) {jo : JobObj}
     (h : NewTask jo sp.podCache P0 names t) :
     TaskSem t ∧ (t.ref.finishTimestamp.isSome = true → PodFinIn sp.pods t.name) ∧
     (t.ref.finishTimestamp.isSome = true → t.name ∈ podNames sp.podCache) := by
-  obtain ⟨_, p, hpt, hsrc⟩ := h
+  obtain ⟨_, p, now, hpt, hsrc⟩ := h
   rcases hsrc with ⟨⟨idx, retry, tm, rfl⟩, _⟩ | hc
   · have hunf : ¬ t.ref.finishTimestamp.isSome = true := by
       intro hf
